@@ -342,10 +342,36 @@ def admitted(sc):
 EXPR_VALUES = (7777, 9999)
 
 
-def writes_ok(ob):
+WRITE_QUEUE_CAPACITY = 1024     # BasePort.WRITE_VALUE_QUEUE_SIZE: pending writes a port keeps before dropping the oldest (C14)
+
+
+def writes_ok(ob, values_only=False):
     subs = [[e[1], e[2]] for e in ob['log'] if e[0] == 1]
     writes = [[w[0], w[1]] for w in ob['writes'] if w[1] not in EXPR_VALUES]
+    if values_only:     # slow driver: same values, same order, one write per submission; the instants differ by the latency
+        return [x[1] for x in subs] == [x[1] for x in writes]
     return subs == writes
+
+
+def burst_scenarios(rng, k):
+    """sequences up to the API's admitted length (256 values) x repeats, delays shorter than the driver's write latency:
+    up to ~600 writes pending at once, below the port's capacity (1024) — every value must still reach the driver, in order"""
+    out = []
+    shapes = [(70, 1), (200, 1), (256, 2), (96, 4), (130, 3), (64, 2), (256, 1)]
+    for i in range(k):
+        n, r = shapes[i % len(shapes)]
+        if i >= len(shapes):
+            n, r = rng.randint(66, 256), rng.randint(1, 2)
+        alphabet = rng.choice([2, 3, 50])
+        values = [rng.randint(1, alphabet) for _ in range(n)]
+        delays = [0] * n if rng.random() < 0.6 else [rng.choice([0, 0, 0, 1]) for _ in range(n)]
+        wlat = rng.choice([2, 2, 3, 5])
+        seq = {'values': values, 'delays': delays, 'repeat': r}
+        out.append({'port': {'enabled': True, 'writable': True, 'expr': False, 'initial': rng.choice([None, 1])},
+                    'seq': seq, 'cmd': {'kind': 'none', 'at': 0, 'pos': 0}, 'wlat': wlat,
+                    # the whole playback is observed (the driver is compared with ALL the submissions)
+                    'horizon': firing_times(values, delays, r, 0, 10 ** 9, 10 ** 6)[-1] + 2})
+    return out
 
 
 def evaluate(ctx, res, scenarios, origin, stats):
@@ -366,12 +392,19 @@ def evaluate(ctx, res, scenarios, origin, stats):
         usable.append((sc, ob))
         # one driver write per submitted value, in order, at the instant of the submission (the harness driver confirms a
         # write at once and the port stays enabled) — the FULL list of writes, not the list of value changes
-        if 'disable' not in (sc['cmd']['kind'], (sc.get('cmd2') or {}).get('kind')) and not writes_ok(ob):
+        if ob.get('queue_size') != WRITE_QUEUE_CAPACITY and not stats.get('capacity_reported'):
+            stats['capacity_reported'] = True
+            res['tie_failures'].append('the harness port class inherits WRITE_VALUE_QUEUE_SIZE = %r, not the capacity %d the '
+                                       'property (and C14) speak of' % (ob.get('queue_size'), WRITE_QUEUE_CAPACITY))
+        if 'disable' not in (sc['cmd']['kind'], (sc.get('cmd2') or {}).get('kind')) and not writes_ok(ob, bool(sc.get('wlat'))):
             res['violations'].append({
                 'key': {'command': sc['cmd']['kind'], 'aspect': 'driver writes differ from submissions'},
-                'what': 'the driver was written %s but the sequence submitted %s (values %s delays %s repeat %s, port showed %s)'
-                        % ([w for w in ob['writes'] if w[1] not in EXPR_VALUES][:12], [[e[1], e[2]] for e in ob['log'] if e[0] == 1][:12],
-                           sc['seq']['values'], sc['seq']['delays'], sc['seq']['repeat'], sc['port'].get('initial')),
+                'what': 'the driver was written %d values %s... but the sequence submitted %d values %s... (%d values, delays %s..., '
+                        'repeat %s, port showed %s, driver write latency %s ms, write queue capacity %s)'
+                        % (len([w for w in ob['writes'] if w[1] not in EXPR_VALUES]),
+                           [w for w in ob['writes'] if w[1] not in EXPR_VALUES][:8], sum(1 for e in ob['log'] if e[0] == 1),
+                           [[e[1], e[2]] for e in ob['log'] if e[0] == 1][:8], len(sc['seq']['values']), sc['seq']['delays'][:8],
+                           sc['seq']['repeat'], sc['port'].get('initial'), sc.get('wlat', 0), ob.get('queue_size')),
                 'case': sc, 'observed': {'log': ob['log'], 'driver_writes': ob['writes']},
                 'expected': 'one write_value call per submitted value, same order, same virtual ms'})
     if len(res['samples']) < 12:
@@ -427,6 +460,10 @@ def account(sc, ob, res, stats):
         inc('concurrent pair:%s+%s' % (cmd['kind'], sc['cmd2']['kind']))
     if sc.get('dlat'):
         inc('disable with a slow handle_disable hook')
+    if sc.get('wlat'):
+        inc('burst: >= 64 values faster than the driver writes')
+        inc('  ... max writes pending', 0)
+        d['  ... max writes pending'] = max(d['  ... max writes pending'], len(sc['seq']['values']) * max(1, sc['seq']['repeat']))
     if cmd['kind'] == 'seq' and all(cmd.get(k) == sc['seq'][k] for k in ('values', 'delays', 'repeat')):
         inc('replacement identical to the running sequence')
     inc('n=%d' % len(sc['seq']['values']))
@@ -482,6 +519,7 @@ def generated(ctx, n_total, rng):
     else:
         scenarios += exhaustive_family({'values': [1, 2], 'delays': [2, 1], 'repeat': 2}, ['seq', 'disable'],
                                        {'values': [101, 102], 'delays': [1, 2], 'repeat': 1})
+    scenarios += burst_scenarios(rng, 4 if ctx.tier != 'thorough' else 40)
     per_base = 12 if ctx.tier != 'thorough' else 40
     while len(scenarios) < n_total:
         scenarios += gen_family(rng, per_base)
